@@ -21,16 +21,48 @@ REACH = {"C25": ("ReRegisterWhileClaimed", "ReRegisterRefused", "BridgeDataBothW
 THIRDS = [0, 11, 22, 32]
 
 
+def _cached(name, fn):
+    """development aid, off by default: with RELAY_TLC_CACHE=<dir> the TLC results (which depend on spec/ only, not on the
+    tree under test) are reused between runs, e.g. when a series of mutants is checked.  The key covers every spec file."""
+    d = os.environ.get("RELAY_TLC_CACHE")
+    if not d:
+        return fn()
+    import hashlib, pickle
+    h = hashlib.sha256()
+    for f in sorted(os.listdir(vlib.SPEC)):
+        if f.startswith(("Relay", "MC_Relay", "TraceKit")) and "TTrace" not in f:
+            h.update(f.encode() + open(os.path.join(vlib.SPEC, f), "rb").read())
+    path = os.path.join(d, "%s-%s.pkl" % (name, h.hexdigest()[:16]))
+    if os.path.exists(path):
+        log("[tlc] %s: result taken from RELAY_TLC_CACHE" % name)
+        return pickle.load(open(path, "rb"))
+    v = fn()
+    os.makedirs(d, exist_ok=True)
+    pickle.dump(v, open(path + ".tmp", "wb"))
+    os.replace(path + ".tmp", path)
+    return v
+
+
 def model_check(chk, thorough):
+    if not os.environ.get("RELAY_TLC_CACHE"):
+        return _model_check(chk, thorough)[0:2]
+    hists, hists2, cov = _cached("model-%s-%s" % (chk.pid, chk.tier), lambda: _model_check(chk, thorough))
+    for k in ("states", "transitions", "models", "scenarios_reached_in_model"):
+        chk.cov[k] = cov[k]
+    chk.cov["note_model_results"] = "TLC results reused from RELAY_TLC_CACHE (development mode)"
+    return hists, hists2
+
+
+def _model_check(chk, thorough):
     """design => contract; returns the state-cover histories of the model and of its as-found variant"""
-    r, hists = vlib.dump_hists("Relay", "MC_Relay.cfg", workers=vlib.NCPU, timeout=900)
+    r, hists = vlib.dump_hists("Relay", "MC_Relay.cfg", workers=vlib.NCPU, timeout=2400)
     chk.add_model("Relay design=>contract, 3 clients x 2 ids, exhaustive (REGISTER/CONNECT/identity in 1-3 fragments/pipelined "
                   "identity+data/data/other lines/disconnect at every stage)", r, "invariants " + INV_C25 + " " + INV_C26 + " D_RegistryConsistent")
     # the code as found (REGISTER accepted from a claimed peer) must violate the contract in the model
     for cfg, inv in (DEV[chk.pid] if thorough else DEV[chk.pid][:2]):
-        vlib.mc("Relay", "MC_Relay_%s.cfg" % cfg, expect_violation=inv, workers=8, timeout=600)
+        vlib.mc("Relay", "MC_Relay_%s.cfg" % cfg, expect_violation=inv, workers=8, timeout=1500)
     # vacuity: every scenario the invariants are about is reachable (one run, ReachAll prints the names it meets)
-    rr = vlib.mc("Relay", "MC_Relay_reach.cfg", workers=8, timeout=900)
+    rr = vlib.mc("Relay", "MC_Relay_reach.cfg", workers=8, timeout=1800)
     seen = set(re.findall(r'<<"REACHED", "(\w+)">>', rr.out))
     missing = [x for x in REACH[chk.pid] if x not in seen]
     if missing:
@@ -38,15 +70,15 @@ def model_check(chk, thorough):
     chk.cov["scenarios_reached_in_model"] = sorted(seen)
     if thorough:
         for name in ("ReRegisterWhileClaimed", "BridgeDataBothWays", "SurplusDelivered"):
-            vlib.mc("Relay", "MC_Relay_reach_%s.cfg" % name, expect_violation="Reach_" + name, workers=4, timeout=300)
+            vlib.mc("Relay", "MC_Relay_reach_%s.cfg" % name, expect_violation="Reach_" + name, workers=4, timeout=900)
     # the model of the code as found (REGISTER accepted while claimed), no invariants: its state cover supplies the
     # histories that run through the deviation, whatever the tree under test does with them
-    r2, hists2 = vlib.dump_hists("Relay", "MC_Relay_gen_rereg.cfg", workers=vlib.NCPU, timeout=900)
+    r2, hists2 = vlib.dump_hists("Relay", "MC_Relay_gen_rereg.cfg", workers=vlib.NCPU, timeout=2400)
     chk.add_model("Relay as-found variant (REGISTER accepted while claimed), state cover only, <= 9 steps", r2, "no invariants: sequence generation")
     if thorough:
-        r3 = vlib.mc("Relay", "MC_Relay_thorough.cfg", workers=vlib.NCPU, timeout=1100)
+        r3 = vlib.mc("Relay", "MC_Relay_thorough.cfg", workers=vlib.NCPU, timeout=2400)
         chk.add_model("Relay design=>contract, 4 clients x 2 ids, <= 8 client steps", r3, "bounded")
-    return hists, hists2
+    return hists, hists2, chk.cov
 
 
 # ---- model history -> script --------------------------------------------------------------------------
@@ -276,7 +308,7 @@ def run_and_validate(chk, behaviours, label, flavour="plain", hists=None):
         return None
     wd = vlib.workdir("relay-%s-%s" % (chk.pid, label))
     events, trace = run_driver(behaviours, wd, flavour)
-    res = vlib.validate("RelayTrace", trace, timeout=1200)
+    res = vlib.validate("RelayTrace", trace, timeout=2400)
     nb = sum(1 for e in events if e["op"] == "reset")
     chk.add_traces(nb, len(events), res, "%s (%s build)" % (label, flavour))
     for e in events:
